@@ -33,10 +33,10 @@ var certDir = func() string {
 }()
 
 type fixtures struct {
-	sig, enc, rsa        gmtls.Certificate // server certificates
-	gmAuth, rsaAuth      gmtls.Certificate // client certificates issued by SM2_CA / RSA_CA
-	gmFake, rsaFake      gmtls.Certificate // client certificates naming those CAs as issuer, signed by another key
-	pool                 *x509.CertPool    // SM2_CA + RSA_CA
+	sig, enc, rsa   gmtls.Certificate // server certificates
+	gmAuth, rsaAuth gmtls.Certificate // client certificates issued by SM2_CA / RSA_CA
+	gmFake, rsaFake gmtls.Certificate // client certificates naming those CAs as issuer, signed by another key
+	pool            *x509.CertPool    // SM2_CA + RSA_CA
 }
 
 func must(err error) {
